@@ -119,6 +119,7 @@ type hist struct {
 type env struct {
 	run  *emit.Run
 	pubs []cryptotypes.PubKey // by rank
+	privs []*secp256k1.PrivKey
 	prio palomamempool.TxPriority[int64]
 	// class ranking oracle: lowest / highest real priority seen per class (0 consensus .. 3 valset, 4 = everything else below MaxInt64-3)
 	clsMin, clsMax [5]int64
@@ -166,18 +167,21 @@ func newEnv(run *emit.Run) *env {
 	type kp struct {
 		pub  cryptotypes.PubKey
 		addr string
+		priv *secp256k1.PrivKey
 	}
 	pcommon.SetupPalomaPrefixes() // the node's bech32 prefixes (the priority index compares the sender STRINGS)
 	var ks []kp
 	for i := 0; i < 8; i++ {
-		pk := secp256k1.GenPrivKeyFromSecret([]byte{byte(i), 0xC1, 0x9}).PubKey()
-		ks = append(ks, kp{pk, sdk.AccAddress(pk.Address()).String()})
+		priv := secp256k1.GenPrivKeyFromSecret([]byte{byte(i), 0xC1, 0x9})
+		pk := priv.PubKey()
+		ks = append(ks, kp{pk, sdk.AccAddress(pk.Address()).String(), priv})
 	}
 	// the priority index compares the bech32 sender strings
 	sort.Slice(ks, func(i, j int) bool { return strings.Compare(ks[i].addr, ks[j].addr) < 0 })
 	e := &env{run: run, prio: palomamempool.NewDefaultTxPriority(), classReported: map[string]bool{}}
 	for _, k := range ks {
 		e.pubs = append(e.pubs, k.pub)
+		e.privs = append(e.privs, k.priv)
 	}
 	e.app = newApp()
 	e.buildKinds(e.app)
@@ -326,18 +330,29 @@ func (h *hist) oracle(e *env, out []*testTx, panicked bool, entry any) {
 		e.run.Violate("C19:select-panics", "Select/Next panicked inside the premise", replay)
 		return
 	}
+	ids := make([]sn, len(out))
+	for i, t := range out {
+		ids[i] = sn{t.sender, t.seq}
+		if p, ok := h.pend[ids[i]]; ok && p.tx != t {
+			e.run.Violate("C19:yields-wrong-tx", fmt.Sprintf("Select yielded a different transaction object for (sender %d, nonce %d)", t.sender, t.seq), replay)
+			return
+		}
+	}
+	prio := make(map[sn]int64, len(h.pend))
+	for k, p := range h.pend {
+		prio[k] = p.prio
+	}
+	oracleSN(e, ids, prio, replay)
+}
+
+// out: the yielded (sender, nonce) sequence; pend: the pending set with the priority of each transaction
+func oracleSN(e *env, out []sn, pend map[sn]int64, replay any) {
 	seen := map[sn]int{}
 	lastNonce := map[int]uint64{}
 	hasLast := map[int]bool{}
-	for _, t := range out {
-		k := sn{t.sender, t.seq}
-		p, ok := h.pend[k]
-		if !ok {
+	for _, k := range out {
+		if _, ok := pend[k]; !ok {
 			e.run.Violate("C19:yields-non-pending", fmt.Sprintf("Select yielded (sender %d, nonce %d) which is not pending (removed or never inserted)", k.s, k.n), replay)
-			return
-		}
-		if p.tx != t {
-			e.run.Violate("C19:yields-wrong-tx", fmt.Sprintf("Select yielded a different transaction object for (sender %d, nonce %d)", k.s, k.n), replay)
 			return
 		}
 		seen[k]++
@@ -345,23 +360,23 @@ func (h *hist) oracle(e *env, out []*testTx, panicked bool, entry any) {
 			e.run.Violate("C19:yields-twice", fmt.Sprintf("Select yielded (sender %d, nonce %d) twice", k.s, k.n), replay)
 			return
 		}
-		if hasLast[t.sender] && lastNonce[t.sender] >= t.seq {
-			e.run.Violate("C19:nonce-order", fmt.Sprintf("sender %d: nonce %d yielded after nonce %d", t.sender, t.seq, lastNonce[t.sender]), replay)
+		if hasLast[k.s] && lastNonce[k.s] >= k.n {
+			e.run.Violate("C19:nonce-order", fmt.Sprintf("sender %d: nonce %d yielded after nonce %d", k.s, k.n, lastNonce[k.s]), replay)
 			return
 		}
-		hasLast[t.sender], lastNonce[t.sender] = true, t.seq
+		hasLast[k.s], lastNonce[k.s] = true, k.n
 	}
-	if len(out) != len(h.pend) {
-		e.run.Violate("C19:pending-not-yielded", fmt.Sprintf("Select yielded %d of %d pending transactions", len(out), len(h.pend)), replay)
+	if len(out) != len(pend) {
+		e.run.Violate("C19:pending-not-yielded", fmt.Sprintf("Select yielded %d of %d pending transactions", len(out), len(pend)), replay)
 		return
 	}
 	// priority dominance: when t is yielded, every other sender's next available tx has priority <= prio t
 	yielded := map[sn]bool{}
 	for _, t := range out {
-		pt := h.pend[sn{t.sender, t.seq}].prio
+		pt := pend[t]
 		next := map[int]sn{}
-		for k := range h.pend {
-			if yielded[k] || k.s == t.sender {
+		for k := range pend {
+			if yielded[k] || k.s == t.s {
 				continue
 			}
 			if cur, ok := next[k.s]; !ok || k.n < cur.n {
@@ -369,13 +384,13 @@ func (h *hist) oracle(e *env, out []*testTx, panicked bool, entry any) {
 			}
 		}
 		for s2, k := range next {
-			if h.pend[k].prio > pt {
+			if pend[k] > pt {
 				e.run.Violate("C19:priority-dominance", fmt.Sprintf("(sender %d, nonce %d, priority %d) yielded while sender %d's next (nonce %d) has priority %d",
-					t.sender, t.seq, pt, s2, k.n, h.pend[k].prio), replay)
+					t.s, t.n, pt, s2, k.n, pend[k]), replay)
 				return
 			}
 		}
-		yielded[sn{t.sender, t.seq}] = true
+		yielded[t] = true
 	}
 }
 
@@ -570,6 +585,9 @@ func TestCorr(t *testing.T) {
 		e.genHistory(run.Rng.Intn(100) < 15)
 		if i%3 == 0 {
 			e.genAPIHistory()
+		}
+		if i%30 == 0 {
+			e.genAppHistory()
 		}
 	}
 	if err := run.Finish("Mempool.PriorityNonce Mempool.PriorityNonceApi Corr.C19", "C19.case", "C19.check"); err != nil {
